@@ -83,17 +83,21 @@ def run(ctx):
                     ok = ok or uses == ['branch'] or any(kind == 'discr' for bk, kind, x in q.local_uses(s, tt['dest']['l']))
         ctx.verdict(ok, rule, rule + ':target-overflow', 'the task target is threads.checked_mul(3), and None is returned as SolveError::ThreadOverflow through `?`', s.where(cm[0][0]) if cm else s.where(0), 'found: %s' % ok,
                     breaks='a huge thread count overflows (panic or wrap) instead of the documented error')
-        # one thread: no Err constructible
-        single = []
-        for bi in sorted(s.reach):
-            cs = s.conds(bi)
-            if any(c['kind'] == 'Eq' and c['truth'] is True and 'threads' in facts.show(c['a']) + facts.show(c['b']) for c in cs):
-                single.append(bi)
-        errs = [bi for bi, st, e in q.agg_sites(s, 'result::Result', 'Err') if bi in single] + [bi for bi, t, p in s.calls() if bi in single and short(p) in ('from_residual', 'branch', 'ok_or')]
-        res_calls = [(bi, short(p)) for bi, t, p in s.calls() if bi in single and short(p).startswith('solve_') and s.locals[t['dest']['l']]['ty'].startswith(('std::result::Result<', 'Result<'))]
-        n_single = sum(1 for bi, t, p in s.calls() if bi in single and short(p).startswith('solve_'))
-        ctx.verdict(not errs and not res_calls and n_single == 3, rule, rule + ':one-thread-infallible', 'on the `threads == 1` edge no error can be constructed: the three single-thread solvers return SolveInfo, not Result', s.where(single[0]) if single else s.where(0),
-                    '%d single-thread solver calls; Result-returning: %s; error constructions on that edge: %d' % (n_single, res_calls, len(errs)), breaks='solving with one thread can return an error')
+        # one thread: no Err constructible — every path of the decision table with threads == 1 returns Ok
+        import dispatch
+        it = dispatch.solve_table(s)
+        ones = [p_ for p_ in it.paths if p_.tokens.get('one') is True]
+        unknown = [p_ for p_ in it.paths if p_.tokens.get('one') is None and p_.sink[0] is not None]
+        if it.overflow or not ones or unknown:
+            ctx.anchor_lost(rule, 'Game::solve: paths with threads == 1', 'paths with the one-thread test recognised: %d; without: %d' % (len(ones), len(unknown)))
+        else:
+            bad_ = sorted({p_.sink for p_ in ones if p_.sink[1] != 'Ok' or not str(p_.sink[0]).endswith('_single')}, key=str)
+            maybe = [x for x in bad_ if x[1] == '?' and str(x[0]).endswith('_single')]
+            if bad_ and len(maybe) == len(bad_):
+                ctx.anchor_lost(rule, 'Game::solve: value returned with threads == 1', 'returned variant not determined: %s' % maybe)
+            else:
+                ctx.verdict(not bad_, rule, rule + ':one-thread-infallible', 'with `threads == 1` every path runs a single-thread solver and returns Ok: no error can be constructed', s.where(0),
+                            '%d paths with threads == 1; other outcomes: %s' % (len(ones), bad_), breaks='solving with one thread can return an error')
         # thread count: zero selects available parallelism, falling back to one
         th_ok = any(short(p) == 'available_parallelism' for g in [s] + lib.closures_of(s) for _, _, p in g.calls())
         ctx.verdict(th_ok, rule, rule + ':zero-means-available', 'num_threads = 0 selects thread::available_parallelism (falling back to one thread)', s.where(0), 'found: %s' % th_ok)
